@@ -7,7 +7,7 @@ from fractions import Fraction as F
 
 from ..parloop import classify_writes, is_parallel, is_numba, prange_loops, FIXTURE
 from ..peval import Evaluator, Model, Unsupported, RaisedInModel
-from ..source import norm, SourceTree
+from ..source import FuncInfo, norm, SourceTree
 from .common import params
 
 EXPLANATION = "(R1) every write inside a prange body of plot/utils.py classified: no shared read-modify-write (private histograms reduced after the loop), batch mode followed over several thread counts; (R2) kernel index logic over all orderings of a coordinate against the bin edges; (R5) histogram2d/_parse_limit/finmin/finmax interpreted over token Arrays with symbolic numpy values: explicit limits converted to the axis unit and log10'd on log axes, a missing limit is the FINITE min/max and the automatic range strictly contains the data; (R6) axis separation, default layer = ones, one kernel slot per layer, mean = slot/counts, mask = (counts == 0)."
@@ -88,6 +88,8 @@ class Arr(Model):
         self.reduced = 0
 
     def __getitem__(self, idx):
+        if isinstance(idx, int) and not isinstance(idx, bool) and len(self.shape) >= 3:
+            return ArrView(self, (idx,))           # the accumulator of one thread, handed to a helper
         return ("elem", self.name, idx)
 
     def __setitem__(self, idx, v):
@@ -100,6 +102,51 @@ class Arr(Model):
             r.base = getattr(self, "base", self)
             return r
         raise Unsupported("sum(axis=%r) on an accumulator" % (axis,))
+
+
+class ArrView(Model):
+    """arr[t]: a view of the leading (per-thread) axis; updates are recorded on the base array with the index prefixed"""
+
+    def __init__(self, base, prefix):
+        self.base, self.prefix = base, tuple(prefix)
+        self.shape = base.shape[len(prefix):]
+
+    def full(self, idx):
+        return self.prefix + (tuple(idx) if isinstance(idx, tuple) else (idx,))
+
+    def __getitem__(self, idx):
+        return ("elem", self.base.name, self.full(idx))
+
+    def __setitem__(self, idx, v):
+        self.base.log.append((self.base, self.full(idx), ("=", v), self.base.ctx.get("point")))
+
+
+class SizeThreshold(Model):
+    """a module-level numeric constant a size is compared with (a 'use the parallel path above N points' switch): the comparison is not
+    decided by the handful of sample points - the fold is run under both outcomes"""
+
+    def __init__(self, name, value, ctx):
+        self.name, self.value, self.ctx = name, value, ctx
+
+    def _large(self):
+        a = self.ctx.get("assume_large")
+        if a is None:
+            self.ctx["threshold_seen"] = self.name
+            raise Unsupported("size threshold %s" % self.name)
+        return a
+
+    # n > T, n >= T  <=> large ; n < T, n <= T <=> not large   (python calls the reflected method on T)
+    def __lt__(self, n):
+        return self._large()
+
+    def __le__(self, n):
+        return self._large()
+
+    def __gt__(self, n):
+        return not self._large()
+
+    def __ge__(self, n):
+        return not self._large()
 
 
 class Vec(Model):
@@ -141,6 +188,16 @@ class KernelEval(Evaluator):
         r = self.tree.resolve_name(self.fi.module, node.id)
         if isinstance(r, tuple) and r[0] == "ext":
             return self.ext(r[1], node)
+        if isinstance(r, tuple) and r[0] == "value" and isinstance(r[2], ast.Constant) and isinstance(r[2].value, (int, float)) and not isinstance(r[2].value, bool):
+            return SizeThreshold(node.id, r[2].value, self.ctx)
+        if isinstance(r, FuncInfo):
+            # a package helper called from the kernel: interpreted with the same log (numba inlines / compiles it the same way)
+            helper = r
+
+            def call_helper(*args, **kwargs):
+                sub = KernelEval(self.tree, helper, {}, self.log, self.ctx, self.nthreads)
+                return sub.run_function(helper.node, list(args), kwargs)
+            return call_helper
         raise Unsupported("name %s" % node.id)
 
     def ext(self, d, node):
@@ -195,11 +252,14 @@ class KernelEval(Evaluator):
             if isinstance(base, Arr):
                 self.log.append((base, idx, ("+=", val), self.ctx.get("point")))
                 return
+            if isinstance(base, ArrView):
+                self.log.append((base.base, base.full(idx), ("+=", val), self.ctx.get("point")))
+                return
         return super().exec_stmt(st)
 
 
-def fold_kernel(tree, fi, pts, xmin, xmax, nx, ymin, ymax, ny, nthreads=1, nlayers=2):
-    log, ctx = [], {}
+def fold_kernel(tree, fi, pts, xmin, xmax, nx, ymin, ymax, ny, nthreads=1, nlayers=2, assume_large=None):
+    log, ctx = [], {"assume_large": assume_large}
     pn = params(fi)
     if len(pn) != 9:
         raise Unsupported("hist2d signature changed: %s" % pn)
@@ -235,10 +295,19 @@ def r2_kernel_index_logic(run, tree):
     ]
     pts = [(c[1], c[2]) for c in cases]
     shapes_checked = False
-    for nthreads in (1, 2, 4, 5):
-        tag = "" if nthreads == 1 else "[threads=%d]" % nthreads
+    variants = [(n_, None) for n_ in (1, 2, 4, 5)]
+    try:
+        fold_kernel(tree, fi, pts, xmin, xmax, nx, ymin, ymax, ny, 2)
+    except Unsupported as e:
+        if str(e).startswith("size threshold"):
+            # the kernel switches on the number of points: both sides of the switch, for every thread count
+            variants = [(n_, big) for n_ in (1, 2, 4, 5) for big in (False, True)]
+    except Exception:
+        pass
+    for nthreads, big in variants:
+        tag = ("" if nthreads == 1 else "[threads=%d]" % nthreads) + ("" if big is None else "[%s the size threshold]" % ("above" if big else "below"))
         try:
-            log, arrays, ret = fold_kernel(tree, fi, pts, xmin, xmax, nx, ymin, ymax, ny, nthreads)
+            log, arrays, ret = fold_kernel(tree, fi, pts, xmin, xmax, nx, ymin, ymax, ny, nthreads, assume_large=big)
         except (Unsupported, RaisedInModel, ZeroDivisionError, TypeError, IndexError) as e:
             run.unresolved("%s::fold%s" % (KERNEL, tag), fi.where(), "cannot fold the kernel over the sample points: %s: %s" % (type(e).__name__, e))
             continue
